@@ -20,7 +20,7 @@ bytes).
     byte orders); ListWriterTrace.tla validates each unit.
 """
 import json, os
-from vlib import read_ndjson, canon, ToolError
+from vlib import read_ndjson, canon, ToolError, log
 
 
 def strip_err(x):
@@ -53,16 +53,46 @@ def expected_classes(case):
     return out
 
 
+def chunks_of(ctx, cases_path, tag, size=30000):
+    """Yield (chunk_path, cases) so that observations of at most `size` cases are in memory."""
+    buf, k = [], 0
+    def flush():
+        nonlocal buf, k
+        p = os.path.join(ctx.work, "%s-part%d.ndjson" % (tag, k))
+        with open(p, "w") as f:
+            f.writelines(buf)
+        cases = [json.loads(l) for l in buf]
+        buf = []
+        k += 1
+        return p, cases
+    with open(cases_path) as f:
+        for line in f:
+            if line.strip():
+                buf.append(line)
+                if len(buf) >= size:
+                    yield flush()
+    if buf:
+        yield flush()
+
+
 def check_cases(ctx, binpath, cases_path, tag):
-    obs = ctx.replay(binpath, cases_path, tag=tag)
-    for ci, case in enumerate(read_ndjson(cases_path)):
+    base = 0
+    for part, cases in chunks_of(ctx, cases_path, tag):
+        obs = ctx.replay(binpath, part, tag=tag)
+        check_chunk(ctx, cases, obs, base)
+        base += len(cases)
+        os.remove(part)
+
+
+def check_chunk(ctx, cases, obs, base):
+    for ci, case in enumerate(cases):
         o = obs.get(ci)
         vclass = "pair-format" if case["vc"] <= 4 else "v5"
         if o is None or "outcome" in o:
             ctx.violation("listw:%s:%s" % ((o or {}).get("outcome"), (o or {}).get("loc", "")),
                           "harness did not return normally: %s" % json.dumps(o)[:300], case, o)
             continue
-        if ci % 9973 == 0:
+        if (base + ci) % 9973 == 11:
             ctx.sample({"case": {k: case[k] for k in ("vc", "asz", "lp", "lists", "reject", "why", "meaning")}, "obs": o["runs"][0]})
         exp_cls = expected_classes(case)
         for run in o["runs"]:
@@ -154,7 +184,7 @@ def validate_units(ctx, trace, module="ListWriterTrace", chunk=4000):
             raise ToolError("trace validation failed without an unmatched event: %s" % info.get("error"))
         idx_s, js = um.split(", ", 1)
         idx = int(idx_s)
-        ev = json.loads(json.loads(js))
+        ev = json.loads(part[idx - 1])       # the spec prints only the line number (events are long)
         ctx.cov["traces_validated_against_impl"] += idx - 1
         o = ev.get("obs", {})
         enc = ev.get("enc", {})
@@ -168,8 +198,9 @@ def validate_units(ctx, trace, module="ListWriterTrace", chunk=4000):
         ctx.violation(sig, "recorded unit is not explained by ListWriter/Lists: %s" % json.dumps(ev)[:900], ev, None)
         pos += idx
         rejected += 1
-        if rejected > 40:
-            raise ToolError("too many rejected units")
+        if rejected >= 8:
+            log("[c16] 8 recorded units rejected; the remaining %d units are not examined" % (len(lines) - pos))
+            break
 
 
 def run(ctx):
